@@ -616,6 +616,9 @@ impl Group for C06Node {
             split(&format!("init 2|invoice 0 50000000 {t} 3600 0 neg|cpsign 0 new - 0:50000:500|allowpayee|keysend 1 50000000 {t} neg|cpsign 0 new - 1:50000:500|invoice 0 50000000 {t} 3600 0 neg|cpsign 0 new - 0:50000:500|cpsign 1 new - 0:600:500|restart|invoice 2 2000000 {t} 3600 1 neg|cpsign 1 new - 2:2200:500|cprevoke 1|cpsign 1 new - 2:2221:500")),
             // room for two invoices: the third hash is refused (nothing registered, its HTLC refused), through the approver a
             // repeat of an existing one is still answered, directly even the repeat is refused; after the prune there is room
+            // issued-invoice table limit (sign_bolt11_invoice): second issue and a repeat of the first refused under m1,
+            // room again after the prune, restart in between (round 9)
+            split(&format!("init 2 m1|issue 1 2000000 {t} 3600 0|issue 2 2000000 {t} 3600 1|issue 1 2000000 {t} 3600 0|keysend 0 1000 {t}|restart|issue 2 2000000 {t} 3600 1|heartbeat {}|issue 2 2000000 {} 3600 1|cpsign 0 new - 2:10000:500", t + 3600 + 86400 + 61, t + 3600 + 86400 + 61)),
             split(&format!("init 2 m2|keysend 0 50000000 {t}|invoice 1 50000000 {t} 3600 0|keysend 2 50000000 {t}|cpsign 0 new - 2:50000:500|keysend 0 50000000 {t}|keysend 0 50000000 {t} direct|invoice 1 50000000 {t} 3600 0 direct|invoice 1 50000000 {t} 3600 1|keysend 2 1000 {t} neg|heartbeat {}|keysend 2 50000000 {}|cpsign 0 new - 2:50000:500|restart|keysend 1 1000 {} direct", t + 61, t + 61, t + 62)),
             // u64 extreme approval: a + max_routing_fee overflows
             split(&format!("init 2|keysend 0 18446744073709551615 {t}|cpsign 0 new - 0:2000:500|cpsign 1 new - -")),
@@ -741,6 +744,14 @@ impl Group for C06Node {
             // restarted — somebody proposes an outgoing HTLC for that hash without any approval or incoming value
             let h = rng.below(NHASH as u64) as usize;
             ops.push(format!("issue {} {} {} 3600 {}", h, *rng.pick(&[50_000_000u64, 1_000, 0]), now, rng.below(2)));
+            if rng.chance(1, 2) {
+                // more issued invoices (another hash, a repeat): meets `issued_invoices.len() >= max_invoices` in the m1/m2 worlds
+                let h2 = (h + 1 + rng.below(NHASH as u64 - 1) as usize) % NHASH;
+                ops.push(format!("issue {} {} {} 3600 {}", h2, *rng.pick(&[50_000_000u64, 2_000_000]), now, rng.below(2)));
+                if rng.chance(1, 2) {
+                    ops.push(format!("issue {} {} {} 3600 0", h, 50_000_000u64, now));
+                }
+            }
             if rng.chance(3, 4) {
                 let other = (h + 1 + rng.below(NHASH as u64 - 1) as usize) % NHASH;
                 ops.push(format!("keysend {} {} {}", other, *rng.pick(&[1_000u64, 100_000_000]), now));
